@@ -34,6 +34,10 @@ TRUSTED_BASE = [
     "API-level correspondence on every run (this campaign); np.argsort(stable), np.bincount, np.cumsum, "
     "np.argmin, np.ravel_multi_index are list definitions validated by the kernel cases",
     "Lib/Shape.v, Model/COO.v, Model/GCXS.v (den, canonical form, gcxs_wfb) as the meaning of the formats",
+    "tools/sitegen/convert.py (index-dtype bounds of _from_coo/_transpose -> Gen/S_convert.v) and tools/sitegen/scipyconv.py "
+    "(_canonical_scipy's condition, axis choice and constructor flags at the scipy boundary -> Gen/S_scipy.v): AST extractors, fail-closed",
+    "Model/ScipyConv.v as a description of scipy's csr/csc arrays, has_canonical_format and sum_duplicates (by its result), "
+    "compared with real scipy on canonical and non-canonical input by the construction stream",
     "scipy.sparse itself (format changes inside scipy are not modelled; a scipy hop is compared with the "
     "canonical result of the same hop)",
     "correspondence harness tools/props/c05.py, tools/vlib.py",
@@ -1086,13 +1090,15 @@ def campaign(build, tier, seed, report, budget=1):
 
 UNPROVED = [
     "conversion_chain_den (full statement): false of the code (0-d DOK holding an element -> COO raises); proved as "
-    "conversion_chain_den_partial under dok0d_clause, refuted by conversion_chain_den_refuted",
-    "surjectivity of _from_coo onto well-formed GCXS (gcxs_from_coo (gcxs_tocoo g) = g for an arbitrary gcxs_wfb g) and hence "
-    "uniqueness of the GCXS record at fixed axes and change_axes_den/wf for a GCXS not known to be the compressed form of a "
-    "canonical COO: not proved (every GCXS inside a chain is such a form, so the chain theorem does not need it); covered by "
-    "correspondence only (scipy csr/csc input, kernel cases)",
-    "conversions from scipy.sparse (from_scipy_sparse) and CSR/CSC class dispatch are not in the Coq chain type beyond FCsr/FCsc: "
-    "scipy hops are compared with the equivalent model hop by correspondence only",
+    "conversion_chain_den_partial under dok0d_clause, refuted by conversion_chain_den_refuted (the clause stays: the code "
+    "still raises, finding zero_dim_from_iter)",
+    "format changes INSIDE scipy (csr <-> csc <-> coo by scipy's asformat, e.g. CSC.from_scipy_sparse(csr matrix), "
+    "sparse.asarray(coo_matrix, format='gcxs')) and scipy's sum_duplicates algorithm itself are not modelled: sum_duplicates is "
+    "modelled by its result and compared with real scipy by correspondence; cross-orientation construction is correspondence only",
+    "the chain type `fmt` has no scipy constructor: inside chains a scipy hop is compared with the equivalent model hop "
+    "(the round-trip theorems gcxs_scipy_roundtrip / coo_scipy_roundtrip justify the identification for same-orientation hops)",
+    "gcxs_strictb: for ndim < 2 the surjectivity/uniqueness theorems additionally assume empty compressed_axes and indptr "
+    "(gcxs_wfb does not constrain those unused fields)",
 ]
 
 
